@@ -121,6 +121,12 @@ func c02cases(tier string) []c02case {
 			cs = append(cs, c02case{shape: sh, n: n, scen: "prewait", hist: c02hists[2]})
 		}
 	}
+	for _, sh := range []string{"ste", "fork"} {
+		for n := 1; n <= 2; n++ {
+			cs = append(cs, c02case{shape: sh, n: n, scen: "twice", hist: c02hists[0]})
+			cs = append(cs, c02case{shape: sh, n: n, scen: "twice", hist: c02hists[2]})
+		}
+	}
 	// only SOME of the start events are fired (StartWith for all but the last one): whatever the tokens of those do,
 	// completion must not be reported before the last start event has fired too
 	for _, sh := range []string{"ste", "subfirst", "se"} {
@@ -449,6 +455,18 @@ func c02run(out *rec.Out, c c02case, rng *rec.Rng, tier string, stats map[string
 		startWith(c.n - 1)
 		startRes = "returned"
 		in.Note("obs startall returned")
+	case "twice":
+		// StartAll is called a SECOND time while the tokens of the first call are waiting at their tasks: the start events
+		// have fired already — nothing new may start, completion is reported once, when the tokens of the first call end
+		in.Op("startall")
+		startAll()
+		in.Quiesce(q)
+		pollStart()
+		in.Op("startagain")
+		if err := in.Proc.StartAll(in.Ctx); err != nil {
+			in.Note("obs startagain error")
+		}
+		in.Quiesce(q)
 	case "missed":
 		// hold StartWith right after Trigger until the start event's traces have been broadcast (quiescence)
 		arr := hold("after_trigger")
